@@ -106,7 +106,7 @@ MUTANTS = [
     ("C08-open_device-lets-ValueError-out", "C08", "devices.py", "        except ValueError as ex:\n", "        except KeyError as ex:\n", 1),
     ("C16-extern-all-not-carried", "C16", "compiler.py", 'state = {**state, "insn": insn, "emit_address": addr, "local_symbol_prefix": local_symbol_prefix}', 'state = {**state, "insn": insn, "emit_address": addr, "local_symbol_prefix": local_symbol_prefix, "extern_all": None}', 1),
     ("C13-include-parsed-under-written-path", "C13", "metacommands.py", "file_ast = parser.parse(include_path, code)", "file_ast = parser.parse(included_file_path, code)", 1),
-    ("C12-symbols-before-base", "C12", "compiler.py", "        if not link_base[\"promise\"].settled:\n            link_base[\"promise\"].settle(0o1000)\n", "        if not link_base[\"promise\"].settled:\n            link_base[\"promise\"].settle(0o1000)\n        for _, (symbol, value) in self.symbols.items():\n            wait(value)\n", 1),
+    ("NEG-symbols-before-base(harmless since fix D54)", "C12", "compiler.py", "        if not link_base[\"promise\"].settled:\n            link_base[\"promise\"].settle(0o1000)\n", "        if not link_base[\"promise\"].settled:\n            link_base[\"promise\"].settle(0o1000)\n        for _, (symbol, value) in self.symbols.items():\n            wait(value)\n", 0),
     # negative controls: semantically neutral edits, every check must stay green
     ("NEG-rename-local", "C06", "metacommand_impl.py", "        report_cycle(what, arg_token)\n\n    if not isinstance(value, int):", "        report_cycle(what, arg_token)\n    _unused = 1\n\n    if not isinstance(value, int):", 0),
     ("NEG-candidate-order", "C03", "types.py", "            state[\"local_symbol_prefix\"] + self.name,\n            state[\"internal_symbol_prefix\"] + self.name\n", "            state[\"internal_symbol_prefix\"] + self.name,\n            state[\"local_symbol_prefix\"] + self.name\n", 0),
